@@ -247,6 +247,27 @@ def run_c17(tier, seed):
                                 answers=[st(op="answer", n="n1", kind="raw", hex=okrep.hex()), st(op="answer", n="n2", kind="ok", count=4)]))
         cfg = {"masters": 3, "mode": "step", "maxLen": LIMIT}
         r = common.replay_and_validate(cfg, scs, wd, "c17", spec="CmdTrace", cfgfile="CmdTrace.cfg", consts={"Limit": str(LIMIT)})
+        # AUTH is answered by the proxy itself: what it says must not depend on the slot table.  Slots 15000..16383 are
+        # unowned here, and the password (configured or offered) hashes into that gap or not
+        gapw = [w for w in ("pw%d" % x for x in range(4000)) if common.key_slot(w) >= 15000 and common.key_slot(w + "x") >= 15000][:3]
+        inw = [w for w in ("pw%d" % x for x in range(400)) if common.key_slot(w) < 15000 and common.key_slot(w + "x") < 15000][:1]
+        gscs = []
+        for w in gapw + inw:
+            for nm in ("AUTH", "auth"):
+                gscs.append(c17_scenario("c17-auth-nopw-%s-%s" % (nm, w), [req("cmd", [], [nm, w]), wit, req("cmd", [], [nm, w, "extra"]), wit]))
+        rg = common.replay_and_validate(dict(cfg, unowned=True), gscs, wd, "c17gap", spec="CmdTrace", cfgfile="CmdTrace.cfg", consts={"Limit": str(LIMIT)})
+        pscs = [c17_scenario("c17-auth-pw", [req("auth"), wit, req("authbad"), wit, req("get", ["U"]), req("auth"), wit])]
+        for w in gapw + inw:
+            rp = common.replay_and_validate(dict(cfg, unowned=True, password=w), pscs, wd, "c17pw", spec="CmdTrace", cfgfile="CmdTrace.cfg", consts={"Limit": str(LIMIT)})
+            for kk in ("states", "transitions", "traces", "events", "unrealised"):
+                rg[kk] += rp[kk]
+            rg["viol"] += rp["viol"]
+            rg["harness_errors"] += rp["harness_errors"]
+        for kk in ("states", "transitions", "traces", "events", "unrealised", "crashes", "dead"):
+            r[kk] += rg.get(kk, 0)
+        r["viol"] += rg["viol"]
+        r["harness_errors"] += rg["harness_errors"]
+        scs = scs + gscs + pscs
         other = {}
         for v in r["viol"]:
             if v["prop"] in ("C17", "DEAD"):
@@ -462,6 +483,15 @@ def run_c02(tier, seed):
         scs.append({"id": "c02-big-ask", "role": "", "steps": [
             step([st(op="send", c="c1", reqs=[big(21)])]), step([st(op="send", c="c2", reqs=[req(["SET", "@0", "rnd:17000:22"], ("C",))]), st(op="answer", n="n1", kind="ask", to="n3")]),
             okdrain, okdrain]})
+        # a client that leaves (QUIT behind its request) while replies for other clients sit in the same read from the node
+        quitreq = {"k": "quit", "slots": [], "args": [], "dups": []}
+        for j, (ra, rb) in enumerate([(resp_bulk(b"first"), resp_bulk(b"second-" * 20)), (resp_bulk(b"x" * 3000), b":42\r\n"),
+                                      (b"-WRONGTYPE nope\r\n", resp_bulk(bytes(range(256))))]):
+            scs.append({"id": "c02-quit-shares-read-%d" % j, "role": "", "steps": [
+                step([st(op="send", c="c1", reqs=[req(["GET", "@0"]), quitreq]), st(op="send", c="c2", reqs=[req(["GET", "@0"])])]),
+                step([st(op="answer", n="n1", kind="raw", hex=ra.hex()), st(op="answer", n="n1", kind="raw", hex=rb.hex())]),
+                step([st(op="send", c="c2", reqs=[req(["GET", "@0"])])]),
+                step([st(op="answer", n="n1", kind="raw", hex=resp_bulk(b"third").hex())]), okdrain]})
         # a slow reader: the client does not read while a large reply arrives, then drains
         for sz in ([400000] if q else [400000, 3000000]):
             hugerep = resp_bulk(bytes((i * 13 + 5) % 256 for i in range(sz)))
@@ -486,6 +516,9 @@ def run_c02(tier, seed):
             for v in r["viol"]:
                 if v["prop"] == "DEAD" or (v["prop"] == "C02" and v["code"] in ("request-bytes-altered", "reply-bytes-altered", "request-delivered-twice", "request-never-reached-a-backend")):
                     viol.append(v)
+                elif v["code"] in ("never-answered", "reply-withheld") and v["prop"] in ("C09", "C15", "C16"):
+                    # (these scenarios contain no fault that would excuse it) the node's reply bytes did not reach the client
+                    viol.append(dict(v, prop="C02", code="reply-not-delivered:" + v["code"]))
                 else:
                     other[v["prop"] + ":" + v["code"]] = other.get(v["prop"] + ":" + v["code"], 0) + 1
         cov = dict(tot, nontrivial=len(scs), other=other,
